@@ -104,7 +104,12 @@ def _same(a, b):
         return a is b
     return {k: v for k, v in a.items() if k != "atime_ns"} == {k: v for k, v in b.items() if k != "atime_ns"}
 
+_SEEN = set()
+
 def _viol(ctx, key, detail, gk, item):
+    if key in _SEEN:          # one report per failure mode
+        return
+    _SEEN.add(key)
     p, name, exp, back, other = item
     ctx.violation(key, detail, dict(kind="name_case", group=[str(x) for x in gk], plan=p, name=repr(name),
                                     other=repr(other)))
